@@ -137,7 +137,8 @@ PROPS["C20"] = {
     "lean_modules": ["Posmint.Props.C20"], "namespaces": ["Posmint.Props.C20"],
     "required_theorems": ["Posmint.Props.C20." + t for t in ("uvarint_roundtrip", "varint_roundtrip", "lenPrefixed_roundtrip", "intText_roundtrip",
                           "coin_roundtrip", "coins_roundtrip", "powerKey_roundtrip", "powerKey_order", "formatCivil_order", "inclusiveEnd_spec", "hex_roundtrip", "coinText_roundtrip", "parseCoinText_sound", "parseCoinText_spaces",
-                          "fields_roundtrip", "encodeFields_injective", "flatMsg_injective", "msgSend_is_flat", "msgSend_injective")],
+                          "fields_roundtrip", "encodeFields_injective", "flatMsg_injective", "msgSend_is_flat", "msgSend_injective",
+                          "struct_roundtrip", "encodeStruct_injective", "encodeTime_injective", "validator_roundtrip", "validator_injective")],
     "t1": [{"family": "codec", "model": "codec", "stateless": True, "quick_n": 60000, "thorough_n": 10000000, "corpus": "codec"}],
     "rule": "values and byte strings from boundary-biased generators: uvarints/varints around powers of two and 2^64, Int text of up to 255 bits "
             "and malformed text, Coin/Coins with empty and maximal denominations and truncated encodings, MsgSend with empty / 20-byte / odd-length "
@@ -238,7 +239,9 @@ MANIFEST_TEXT = {
                     "counterexample showing the necessary length bound), injectivity of the Coin encoding; the flat message types (MsgSend, MsgBeginUnstake, "
                     "MsgUnjail, MsgDAOTransfer, MsgChangeParam: every field length-delimited) through a generic field encoder with a proved left inverse, "
                     "hence two messages with the same binary encoding have the same fields (fields_roundtrip, encodeFields_injective, flatMsg_injective, "
-                    "msgSend_injective); power-index key round-trip and order "
+                    "msgSend_injective); the stored records (Validator, ValidatorSigningInfo, time) through a struct encoder with length-delimited and varint "
+                    "fields, zero values omitted, int64 as two's complement, with a shape-directed left inverse (struct_roundtrip, encodeStruct_injective, "
+                    "encodeTime_injective, validator_roundtrip, validator_injective: two validator records with the same stored bytes are the same record); power-index key round-trip and order "
                     "(power ascending, address descending), InclusiveEndBytes, the fixed-width time key is order preserving and injective for years "
                     "0-9999, address hex round-trip. Tied byte for byte to go-amino / x/pos key builders by differential runs. Partial: other wire "
                     "types and sign-byte canonicity are validated by monitors and the chain correspondence, not proved.",
